@@ -130,6 +130,7 @@ type vf19Case struct {
 	viol   string // first violation noticed inside a conn call
 	terms  []vf19Terminal
 
+	noPrefix  bool     // the peer of this scripted conn is not the other scripted conn (relay-tcp)
 	bConn     net.Conn // side b handed to copyLoop (nil: conns[1] itself); a wrapper around conns[1] in relay-proxied
 	callerGID int
 	started   bool
@@ -321,7 +322,9 @@ func (x *vf19Conn) Write(p []byte) (int, error) {
 	// prefix of what the relay has read from the other side.
 	peer := c.conns[1-x.side]
 	off := len(x.written)
-	if off+k > len(peer.consumed) {
+	if c.noPrefix {
+		// relay-tcp: the other side is a real socket; the content is compared afterwards
+	} else if off+k > len(peer.consumed) {
 		c.violate("VIOL[c19-relay-prefix]: Write of %d bytes to side %d at offset %d, but the other side has only produced %d bytes (invented data)", k, x.side, off, len(peer.consumed))
 	} else if string(peer.consumed[off:off+k]) != string(p[:k]) {
 		c.violate("VIOL[c19-relay-prefix]: bytes written to side %d at offset %d..%d differ from what side %d produced there (altered or out of order)", x.side, off, off+k, peer.side)
